@@ -380,9 +380,10 @@ def correspond(ctx):
             lines.append(f'c08.evalb {qs(coef)} {qs(x)}')
             checks.append(('evalb', meta, (b, order)))
     # loess coefficients: one row per point
-    for dom in doms[:3]:
+    for idom, dom in enumerate(doms[:3]):
         n = 30
-        x = xs_for(rng, dom, n, 'uniform')
+        # per-point coefficient rows must follow the CALLER's x order: uniform, random and unsorted x in turn
+        x = xs_for(rng, dom, n, ['unsorted', 'uniform', 'random'][(idom + ctx.seed) % 3])
         y = y_for(rng, x)
         for order in (1, 2):
             # both memory strategies, with and without skipped points (delta), several robust iterations
